@@ -13,6 +13,9 @@
 (*           name: how the required name relates to the ISA's name - same, *)
 (*           other, a proper prefix / suffix / infix of it, longer, empty; *)
 (*           only "same" matches                                           *)
+(*  require2 the same line preceded by another #require line that is       *)
+(*           satisfied (the bare matching name): EVERY #require line is    *)
+(*           judged on its own                                             *)
 (*                                                                         *)
 (* Versions are [rel, pre]: a release tuple of 2 or 3 numbers (missing     *)
 (* components are 0) and a pre-release rank (a < b < rc < final, with a    *)
@@ -47,7 +50,7 @@ FaultOrder == << "deprecated_memory", "no_general", "no_instructions", "min_vers
                  "isa_version_not_semver", "register_keyword", "unknown_operand_type", "undeclared_register", "inverted_range",
                  "mnemonic_keyword", "mnemonic_keyword_upper", "missing_bytecode", "count_mismatch", "unknown_operand_set",
                  "count_zero_with_list", "count_zero_unknown_set", "count_smaller_than_list", "variant_count_mismatch", "variant_count_zero_with_list",
-                 "variant_unknown_operand_set",
+                 "variant_unknown_operand_set", "specific_undeclared_register", "specific_inverted_range", "specific_unknown_operand_type",
                  "macro_keyword", "macro_same_as_instruction", "zone_inverted", "zone_beyond_width", "zone_end_is_space_size",
                  "global_beyond_width" >>
 Faults == {FaultOrder[i] : i \in 1..Len(FaultOrder)}
@@ -64,7 +67,7 @@ Validate(x) == ValidateFrom(x, 1)
 Accepted(x) ==
     CASE x.kind = "def"     -> Validate(x) = "ok"
       [] x.kind = "minver"  -> VLe(MinSupported, x.v) /\ VLe(x.v, Running)
-      [] x.kind = "require" -> x.name = "same" /\ (x.op = "" \/ Cmp(x.iv, x.op, x.v))
+      [] x.kind \in {"require", "require2"} -> x.name = "same" /\ (x.op = "" \/ Cmp(x.iv, x.op, x.v))
       [] OTHER -> FALSE
 
 Init == sc \in Scenarios
